@@ -3,7 +3,8 @@
 
   `ReplyArm` is one arm of `execute_submsg`'s case distinction on the sub-message result: the `reply_on` variants for
   which `reply` is called, the fields of the `Reply { … }` literal it builds, and what is done to the sub-message's own
-  response with and without a reply. The table of the current sources is regenerated on every run
+  response with and without a reply (local variable names are canonicalised: `$r` is the variable bound by the arm's pattern, `$v`
+  the let-bound reply result). The table of the current sources is regenerated on every run
   (checklib/tr_rules.py → CwMt/Gen/Rules.lean); `expectedReplyArms` / `expectedVerifySteps` are what
   `Engine.executeSubmsg` and `attrOk` / `eventOk` / `responseOk` transcribe.
 -/
@@ -22,15 +23,15 @@ def expectedReplyArms : List ReplyArm := [
   -- without a reply the sub-message's data is dropped
   { outcome := "Ok", modes := ["Always", "Success"],
     fields := [("id", "id"), ("payload", "payload"), ("gas_used", "0"), ("result", "SubMsgResult::Ok"),
-               ("result.events", "r.events.clone()"), ("result.data", "r.data.clone()")],
-    thenDo := ["let reply_res=self.reply(api,router,storage,block,contract,reply)?", "r.data=reply_res.data",
-               "r.events.extend_from_slice(&reply_res.events)"],
-    otherwise := ["r.data=None"] },
+               ("result.events", "$r.events.clone()"), ("result.data", "$r.data.clone()")],
+    thenDo := ["let $v=self.reply(api,router,storage,block,contract,reply)?", "$r.data=$v.data",
+               "$r.events.extend_from_slice(&$v.events)"],
+    otherwise := ["$r.data=None"] },
   -- it failed: the reply's result is the result; without a reply the error propagates
   { outcome := "Err", modes := ["Always", "Error"],
     fields := [("id", "id"), ("payload", "payload"), ("gas_used", "0"), ("result", "SubMsgResult::Err")],
     thenDo := ["self.reply(api,router,storage,block,contract,reply)"],
-    otherwise := ["Err(e)"] }
+    otherwise := ["Err($r)"] }
 ]
 
 def expectedVerifySteps : List (String × String × String) := [
